@@ -268,7 +268,7 @@ fn wincons_p() -> BoxedStrategy<WinConsP> {
         prop_oneof![1 => Just(0.0f32), 1 => Just(1.0f32), 6 => dec2(0.0, 1.0)],
         prop_oneof![1 => Just(0.0f32), 3 => dec2(0.0, 50.0)],
         opt(1, dec2(0.02, 0.9)),
-        prop_oneof![1 => prop_oneof![Just(3.0f32), Just(9.0f32), Just(27.0f32), Just(50.0f32), Just(100.0f32)], 1 => dec2(1.0, 100.0)],
+        prop_oneof![4 => prop_oneof![Just(3.0f32), Just(9.0f32), Just(27.0f32), Just(50.0f32), Just(100.0f32)], 4 => dec2(1.0, 100.0), 1 => Just(0.0f32), 1 => dec2(0.0, 1.0)],
     )
         .prop_map(|(glass, frame, f_f, delta_u, g_glshwi, c_100)| WinConsP {
             glass,
@@ -283,7 +283,8 @@ fn wincons_p() -> BoxedStrategy<WinConsP> {
 
 fn win_p(p: Params) -> BoxedStrategy<WinP> {
     (
-        (dec2(0.0, 1.0), dec2(0.0, 1.0), dec2(0.2, 0.9), dec2(0.2, 0.9)),
+        // (fw, fh) = (1, 1): the only window of a wall then covers the whole wall (a fully glazed facade)
+        prop_oneof![14 => (dec2(0.0, 1.0), dec2(0.0, 1.0), dec2(0.2, 0.9), dec2(0.2, 0.9)), 1 => (dec2(0.0, 1.0), dec2(0.0, 1.0), Just(1.0f32), Just(1.0f32))],
         prop_oneof![2 => Just(0.0f32), 2 => dec2(0.01, 1.0)],
         prop_oneof![1 => Just(None), 8 => any::<u16>().prop_map(Some)],
         if p.unpositioned { prop_oneof![1 => Just(false), 8 => Just(true)].boxed() } else { Just(true).boxed() },
@@ -792,10 +793,11 @@ pub fn build(pl: &Plan) -> Model {
             for (k, w) in e.windows.iter().enumerate() {
                 // slot k of nwin along the width: keeps windows disjoint and their total area < 0.9 wall area
                 let slot_w = rw / nwin as f32;
-                let ww = r2((slot_w * 0.9 * w.fw).max(0.05));
-                let wh = r2((rh * 0.9 * w.fh).max(0.05));
-                let x = r2(k as f32 * slot_w + (slot_w - ww).max(0.0) * w.fx * 0.99);
-                let y = r2((rh - wh).max(0.0) * w.fy * 0.99);
+                let full = nwin == 1 && w.fw == 1.0 && w.fh == 1.0;
+                let ww = if full { rw } else { r2((slot_w * 0.9 * w.fw.min(0.9)).max(0.05)) };
+                let wh = if full { rh } else { r2((rh * 0.9 * w.fh.min(0.9)).max(0.05)) };
+                let x = if full { 0.0 } else { r2(k as f32 * slot_w + (slot_w - ww).max(0.0) * w.fx * 0.99) };
+                let y = if full { 0.0 } else { r2((rh - wh).max(0.0) * w.fy * 0.99) };
                 let wid = uid(K_WIN, windows.len(), salt);
                 windows.push(Window {
                     id: wid,
